@@ -383,7 +383,15 @@ fn mutated_case(ch: &mut Choices<'_>, st: &mut Stats) -> CaseResult {
             // unknown field (also `$`-prefixed names that are not the list section,
             // carrying a payload shaped like a list section or the section itself)
             if let Value::Object(o) = &mut doc {
-                let name = ch.pick(&["nope", "", "$list", "$lists2", "x.y.z.unknown", "$", "$LISTS", "$lists.", " $lists"]).to_string();
+                let mut name = ch.pick(&["nope", "", "$list", "$lists2", "x.y.z.unknown", "$", "$LISTS", "$lists.", " $lists"]).to_string();
+                if ch.chance(1, 3) {
+                    // long names with multi-byte characters straddling round byte offsets
+                    let pad = *ch.pick(&[0usize, 1, 2, 3, 14, 15, 16, 30, 31, 32, 61, 62, 63, 64, 65, 125, 126, 127, 128, 253, 254, 255, 256, 1021, 1022, 1023]);
+                    let wide = *ch.pick(&["\u{e9}", "\u{20ac}", "\u{1f600}", "\u{0}", "\u{7f}\u{80}"]);
+                    let tail = ch.draw(4);
+                    name = format!("{}{}{}", "u".repeat(pad), wide.repeat(1 + ch.draw(3)), "v".repeat(tail));
+                    st.class("mutated:long-or-non-ascii-unknown-key");
+                }
                 let payload = match ch.draw(4) {
                     0 => json!(1),
                     1 => json!([]),
